@@ -148,6 +148,10 @@ def events_for(case, inst, frame_builder=None):
         objs, keep = build_interfaces(env, coords)
         return [objs[k - 1] for k in env["list"]], (objs, keep), None
 
+    def arg(x):
+        """the same numbers as a list, a float64 array or a tuple (all documented as acceptable): a fresh object per call"""
+        return [list(x), np.array(x, dtype=float), tuple(x)][case % 3]
+
     def call(rows, normalize, lin):
         image = make_image(rows, env["vden"], env["mode"])
         norm = None if normalize == "none" else normalize
@@ -159,7 +163,7 @@ def events_for(case, inst, frame_builder=None):
                 os.makedirs(os.path.dirname(path), exist_ok=True)
                 image.save(path)
                 try:
-                    res = fs.myosin.read_myosin(frame, path, env["integrate"], norm, env["layers"], rescale=r, offset=o)
+                    res = fs.myosin.read_myosin(frame, path, env["integrate"], norm, env["layers"], rescale=arg(r), offset=arg(o))
                 finally:
                     os.remove(path)
             else:
@@ -171,7 +175,7 @@ def events_for(case, inst, frame_builder=None):
                                                   rescale=[r[0] * 0.5, r[1] * 0.5], offset=[o[0] * 0.5 + 2, o[1] * 0.5 + 2])
                     except Exception:
                         pass
-                res = fs.myosin.get_intensities(lst, image, env["integrate"], norm, env["layers"], rescale=r, offset=o)
+                res = fs.myosin.get_intensities(lst, image, env["integrate"], norm, env["layers"], rescale=arg(r), offset=arg(o))
             ret, gt, raised = project_result(res, n), [fxc(b.gt) for b in lst], ""
         except Exception as exc:
             ret, gt, raised = [], [], type(exc).__name__
